@@ -140,10 +140,13 @@ Definition adaptive_rejects (prefer : bool) (d : qdict) (l : layer) : bool :=
   if negb (String.eqb (l_cls l) "Activation") then false else
   match select_entry prefer d (l_name l) with
   | Some (e, true) =>
+    (* an entry with parameters trips the assertion of model_quantize; a quantizer other than quantized_bits / quantized_relu is
+       refused by the QAdaptiveActivation constructor when the rewritten model is built; the empty string falls back to quantize_activation *)
+    let bad (s : string) := negb (String.eqb s "") && (has_comma s || negb (mem (strip_params s) ["quantized_bits"; "quantized_relu"])) in
     match assoc "" e with
-    | Some s => has_comma s
+    | Some s => bad s
     | None => match l_act l with
-              | Some a => match nonempty (assoc a e) with Some s => has_comma s | None => false end
+              | Some a => match nonempty (assoc a e) with Some s => bad s | None => false end
               | None => false
               end
     end
